@@ -375,6 +375,16 @@ def runCsLine (r : Report) (sec : Nat) (cfg : CsCfg) (l : Line) : Report :=
         | none => r
       let r := labelCheck r sec l.idx "cs" (kv? a "mut") (cfg.strict && gated && req.uri.isEmpty) obs.ran (showResp obs)
       -- encrypted round trip, for verified encrypted requests whose whole body the framing delivers
+      let r := match hdrRes with
+        | .ok h =>
+          if cfg.strict ∧ gated ∧ req.uri.isEmpty ∧ verifySignature env cfg.tol req h = 0 ∧ h.contentType = 1 ∧ req.cl ≠ 0 then
+            let C := oracleCipher table 0xEE
+            let r := if (req.body.length : Int) > cfg.limit ∧ cfg.limit > 0 then r.addCover s!"cs-encrypted-over-limit-{frame}" else r
+            match cryptSeenMonitor C h.key req.cl req.body obs with
+            | some msg => r.violation sec l.idx s!"{msg} [verified type=1 request, framing {frame}, limit {cfg.limit}] [{showResp obs}]"
+            | none => r
+          else r
+        | _ => r
       match hdrRes with
       | .ok h =>
         if gated ∧ verifySignature env cfg.tol req h = 0 ∧ h.contentType = 1 ∧ h.key = ak then
@@ -434,6 +444,20 @@ def runCryptLine (r : Report) (sec : Nat) (key : Bytes) (limit : Int) (l : Line)
       let r := r.addCover (if m0.ran then (if reply.isEmpty then "crypt-empty-reply" else if m0.status = 500 then "crypt-reply-500" else "crypt-reply-encrypted")
                            else if m0.panic then "crypt-panic" else s!"crypt-status-{m0.status}")
       let r := compareResp r sec l.idx m0 m1 obs
+      -- limit classes: where the body ends relative to the limit in force, per framing
+      let cap : Int := if cl > 0 then limit else (if limit > 0 then limit else maxBytes)
+      let r := if cap > 0 ∧ cap < 100000 ∧ cl ≠ 0 then
+          let n : Int := body.length
+          let cls := if n + 1 = cap then "one-below-limit" else if n = cap then "at-limit" else if n = cap + 1 then "one-over-limit"
+                     else if n > cap + 1 then "far-over-limit" else "below-limit"
+          let r := r.addCover s!"crypt-limit-{cls}-{frame}"
+          -- an over-limit body whose first `cap` bytes decrypt on their own: a cut at the limit would go unnoticed downstream
+          if n > cap ∧ (decryptWhole C key (body.take cap.toNat)).isSome ∧ C.keyOk key then r.addCover s!"crypt-over-limit-prefix-decrypts-{frame}" else r
+        else r
+      let r := if cl > 0 ∧ (body.length : Int) < cl then r.addCover "crypt-declared-but-short" else r
+      let r := match cryptSeenMonitor C key cl body obs with
+        | some msg => r.violation sec l.idx s!"{msg} [framing {frame}, limit {limit}] [{showResp obs}]"
+        | none => if cl ≠ 0 ∧ obs.ran then r.addCover s!"crypt-seen-is-decryption-of-whole-body-{frame}" else r
       if C.keyOk key ∧ wholeBody limit cl body then
         match cryptMonitor C key (properlyEncrypted C key body) reply obs with
         | some msg => r.violation sec l.idx s!"{msg} [framing {frame}] [{showResp obs}]"
